@@ -581,3 +581,164 @@ func Hostile(r *rand.Rand) (Scenario, string) {
 		return s, "equal-cost"
 	}
 }
+
+// ---------------------------------------------------------------------------
+// Layered generator for C05 scope (b): multi-input converters, acyclic under
+// the type-only dependency relation, every converter MUST-satisfiable.
+// ---------------------------------------------------------------------------
+
+// consumerFor returns a parameter label that MUST-matches src.
+func consumerFor(src Label, r *rand.Rand, subtypes bool) Label {
+	cands := []Label{src}
+	if src.Name != "" {
+		cands = append(cands, Label{Type: src.Type}, Label{Type: src.Type, Sub: src.Sub})
+		if src.Sub != "" {
+			cands = append(cands, Label{Name: src.Name, Type: src.Type})
+		}
+	} else {
+		if src.Sub == "" {
+			cands = append(cands, Label{Name: pick(r, []string{"a", "b", "c"}), Type: src.Type})
+			if subtypes {
+				cands = append(cands, Label{Type: src.Type, Sub: "x"}, Label{Name: pick(r, []string{"a", "b"}), Type: src.Type, Sub: "y"})
+			}
+		} else {
+			cands = append(cands, Label{Type: src.Type})
+		}
+		for _, it := range []int{tI0, tI1} {
+			if implements(src.Type, it) {
+				cands = append(cands, Label{Type: it}, Label{Name: pick(r, []string{"a", "b", "c"}), Type: it})
+			}
+		}
+	}
+	for tries := 0; tries < 20; tries++ {
+		l := pick(r, cands)
+		if must(src, l) {
+			return l
+		}
+	}
+	return src
+}
+
+// Layered builds a scope-(b) scenario.
+func Layered(r *rand.Rand, subtypes bool, failP float64) Scenario {
+	var s Scenario
+	rank := r.Perm(len(types)) // rank[t]
+	inRank := func(t int) int {
+		m := rank[t]
+		for c := 0; c < len(types); c++ {
+			if implements(c, t) && rank[c] > m {
+				m = rank[c]
+			}
+		}
+		return m
+	}
+	// supplied values: concrete types of low rank
+	var avail []Label
+	keys := map[string]bool{}
+	for i := 0; i < 1+r.Intn(3); i++ {
+		t := r.Intn(nConcrete)
+		if rank[t] > 4 {
+			continue
+		}
+		l := Label{Type: t}
+		if r.Intn(2) == 0 {
+			l.Name = pick(r, []string{"a", "b", "c"})
+		}
+		if subtypes && r.Intn(4) == 0 {
+			l.Sub = pick(r, []string{"x", "y"})
+		}
+		if keys[inputKey(l)] {
+			continue
+		}
+		keys[inputKey(l)] = true
+		s.Inputs = append(s.Inputs, l)
+		avail = append(avail, l)
+	}
+	if len(avail) == 0 {
+		l := Label{Type: 0}
+		for t := 0; t < nConcrete; t++ {
+			if rank[t] < rank[l.Type] {
+				l.Type = t
+			}
+		}
+		s.Inputs = append(s.Inputs, l)
+		avail = append(avail, l)
+	}
+	nconv := 1 + r.Intn(6)
+	for i := 0; i < nconv; i++ {
+		nin := 1 + r.Intn(3)
+		var in []Label
+		maxIn := -1
+		for k := 0; k < nin; k++ {
+			p := consumerFor(pick(r, avail), r, subtypes)
+			nl := append(append([]Label{}, in...), p)
+			if !wellFormedList(nl) {
+				continue
+			}
+			in = nl
+			if ir := inRank(p.Type); ir > maxIn {
+				maxIn = ir
+			}
+		}
+		if len(in) == 0 {
+			continue
+		}
+		// outputs of strictly higher rank
+		var higher []int
+		for t := 0; t < len(types); t++ {
+			if rank[t] > maxIn {
+				higher = append(higher, t)
+			}
+		}
+		if len(higher) == 0 {
+			continue
+		}
+		var out []Label
+		for k := 0; k < 1+r.Intn(2); k++ {
+			l := Label{Type: pick(r, higher)}
+			if r.Intn(3) == 0 {
+				l.Name = pick(r, []string{"a", "b", "c", "d"})
+			}
+			if subtypes && r.Intn(5) == 0 {
+				l.Sub = pick(r, []string{"x", "y"})
+			}
+			nl := append(append([]Label{}, out...), l)
+			if wellFormedList(nl) {
+				out = nl
+			}
+		}
+		f := FuncSpec{In: in, Out: out}
+		if r.Intn(6) == 0 {
+			f.InForm, f.OutForm, f.HasErr = FormBuilt, FormBuilt, true
+		} else {
+			f.InForm, f.OutForm = formFor(in, r, false), formFor(out, r, false)
+			f.HasErr = r.Intn(3) == 0 || failP > 0
+		}
+		if f.HasErr {
+			f.Fail = chance(r, failP)
+		}
+		f.Once = r.Intn(10) == 0
+		if r.Intn(8) == 0 && f.InForm != FormBuilt && !f.Once {
+			f.Deliver = DelRaw
+		}
+		s.Convs = append(s.Convs, f)
+		avail = append(avail, out...)
+	}
+	// target
+	var tin []Label
+	for k := 0; k < 1+r.Intn(3); k++ {
+		p := consumerFor(pick(r, avail), r, subtypes)
+		nl := append(append([]Label{}, tin...), p)
+		if wellFormedList(nl) {
+			tin = nl
+		}
+	}
+	s.Target = FuncSpec{In: tin, InForm: formFor(tin, r, false), HasErr: r.Intn(3) == 0}
+	if r.Intn(2) == 0 {
+		s.Target.Out = []Label{{Type: r.Intn(nConcrete)}}
+	}
+	r.Shuffle(len(s.Convs), func(i, j int) { s.Convs[i], s.Convs[j] = s.Convs[j], s.Convs[i] })
+	dedupeTypes(&s)
+	fixDelivery(&s, r)
+	return s
+}
